@@ -228,7 +228,8 @@ def check_outcomes(res, cmds, watches, line_logs, prefix=""):
                 res.bad(prefix + "5xx-succeeded", "command %d: %r" % (k, w.outcome()))
                 continue
             e = w.failure.value
-            if type(e).__name__ != "TorProtocolError":
+            from txtorcon.torcontrolprotocol import TorProtocolError
+            if not isinstance(e, TorProtocolError):
                 res.bad(prefix + "5xx-wrong-error", "command %d: %r" % (k, w.outcome()))
                 continue
             ok_texts = {exp}
